@@ -197,23 +197,28 @@ def execute_in_child(ops, fam, directory, how):
     """child process: run ops on a PersistentDict, then end the process gracefully (interpreter exit runs the
     finalizer) or be killed (os._exit: nothing runs)"""
     from bluesky.utils import PersistentDict
-    d = PersistentDict(directory)
-    for n, e in enumerate(ops):
-        op, k, v = e["op"], e["k"], e["v"]
-        if op == "set":
-            d[k] = value(v, fam)
-        elif op == "del":
-            del d[k]
-        elif op == "mutate":
-            mutate_in_place(d[k], value(v, fam))
-        elif op == "flush":
-            d.flush()
-        elif op == "reload":
-            d.reload()
-        elif op == "update":
-            d.update({kk: value(vv, fam) for kk, vv in e["m"].items() if vv})
-        elif op == "clear":
-            d.clear()
+    try:
+        d = PersistentDict(directory)
+        for n, e in enumerate(ops):
+            op, k, v = e["op"], e["k"], e["v"]
+            if op == "set":
+                d[k] = value(v, fam)
+            elif op == "del":
+                del d[k]
+            elif op == "mutate":
+                mutate_in_place(d[k], value(v, fam))
+            elif op == "flush":
+                d.flush()
+            elif op == "reload":
+                d.reload()
+            elif op == "update":
+                d.update({kk: value(vv, fam) for kk, vv in e["m"].items() if vv})
+            elif op == "clear":
+                d.clear()
+    except Exception as ex:  # noqa: BLE001 -- a legal history failed inside the implementation
+        print(f"IMPL-EXC {type(ex).__name__}: {ex}")
+        sys.stdout.flush()
+        os._exit(3)
     sys.stdout.flush()
     if how == "crash":
         os._exit(0)
@@ -326,16 +331,22 @@ def run(ctx):
                               directory, how], stdout=subprocess.PIPE, stderr=subprocess.PIPE, text=True)
         kids.append((p, ops, fam, how, directory))
     # ---- 1. model checking + generation of replay histories (independent TLC runs, in parallel) -----------
-    gens = [   # (keys, NV, alphabet, MaxOps)
-        (["a"], 2, ["set", "del", "mutate", "flush", "reload", "reopen", "crash"], 4 if ctx.quick else 5),
-        (["a", "b"], 2, ["set", "pop", "popitem", "clear", "setdefault", "reopen", "crash"], 3 if ctx.quick else 4),
-        (["a", "b"], 1, ["update", "mutate", "reload", "popitem", "reopen", "crash"], 4 if ctx.quick else 5),
-    ]
+    if ctx.quick:      # (keys, NV, alphabet, MaxOps)
+        gens = [
+            (["a"], 2, ["set", "del", "mutate", "flush", "reload", "reopen", "crash"], 4),
+            (["a", "b"], 1, ["update", "pop", "popitem", "clear", "setdefault", "mutate", "reload", "reopen", "crash"], 3),
+        ]
+    else:
+        gens = [
+            (["a"], 2, ["set", "del", "mutate", "flush", "reload", "reopen", "crash"], 5),
+            (["a", "b"], 2, ["set", "pop", "popitem", "clear", "setdefault", "reopen", "crash"], 4),
+            (["a", "b"], 1, ["update", "mutate", "reload", "popitem", "flush", "reopen", "crash"], 5),
+        ]
     jobs = {}
     with ThreadPoolExecutor(4) as ex:
         jobs["asfound"] = ex.submit(run_tlc, "PersistentDict", "PersistentDict_small.cfg", spec_dir=SD, tag="C43a", timeout=3000, java_opts=J, workers=W)
-        jobs["repaired"] = ex.submit(run_tlc, "PersistentDict", "PersistentDict_repaired.cfg", spec_dir=SD, tag="C43b", timeout=3000, java_opts=J, workers=2)
-        if not ctx.quick:
+        if not ctx.quick:       # (quick: the repaired semantics is checked by the replay configurations below, INVARIANT C43_Strict)
+            jobs["repaired"] = ex.submit(run_tlc, "PersistentDict", "PersistentDict_repaired.cfg", spec_dir=SD, tag="C43b", timeout=3000, java_opts=J, workers=2)
             jobs["kfreach"] = ex.submit(run_tlc, "PersistentDict", "PersistentDict_kfreach.cfg", spec_dir=SD, tag="C43k", timeout=3000, java_opts=J, workers=2)
         for n, (keys, nv, alpha, mo) in enumerate(gens):
             cfgp = write_cfg(ctx.out / f"gen{n}.cfg", {"Keys": set(keys), "NV": nv, "MaxOps": mo, "Mode": "repaired", "Alphabet": set(alpha)},
@@ -343,8 +354,11 @@ def run(ctx):
             jobs[f"gen{n}"] = ex.submit(run_tlc, "PersistentDict", cfgp, spec_dir=SD, tag=f"C43g{n}", workers=1, timeout=3000, java_opts=J)
     res = {k: f.result() for k, f in jobs.items()}
     ctx.add_tlc(res["asfound"], "PersistentDict exhaustive (as found, finding exempted)")
-    ctx.add_tlc(res["repaired"], "PersistentDict exhaustive (repaired finalizer, strict property)")
+    if "repaired" in res:
+        ctx.add_tlc(res["repaired"], "PersistentDict exhaustive (repaired finalizer, strict property)")
     for name in ("asfound", "repaired"):
+        if name not in res:
+            continue
         r = res[name]
         if not r.ok:
             hist = r.trace[-1][1].get("hist", ()) if r.trace else ()
@@ -367,7 +381,10 @@ def run(ctx):
         r = res[f"gen{n}"]
         ctx.add_tlc(r, f"replay generation {n}: keys={keys} NV={nv} ops<={mo} {alpha}")
         if not r.ok:
-            ctx.machinery(f"replay generation {n} failed: {r.violated}")
+            hist = r.trace[-1][1].get("hist", ()) if r.trace else ()
+            ctx.violation(f"spec:gen{n}:{r.violated}", f"PersistentDict.tla (repaired mode) {r.kind} {r.violated} violated by history {compact(hist)}",
+                          {"hist": compact(hist)})
+            return
         for m in re.finditer(r'<<"HIST", "((?:[^"\\]|\\.)*)">>', r.stdout):
             h = json.loads(json.loads('"' + m.group(1) + '"'))
             nh += 1
@@ -404,10 +421,14 @@ def run(ctx):
         meta.append({"kind": "random", "fam": fam})
     for p, ops, fam, how, directory in kids:
         try:
-            _, err = p.communicate(timeout=120)
+            outp, err = p.communicate(timeout=300)
         except subprocess.TimeoutExpired:
             p.kill()
             ctx.machinery("child process running a PersistentDict history timed out")
+        if p.returncode == 3:
+            ctx.violation(f"child-exc:{compact(ops)}", f"history {compact(ops)} failed in a child process: {outp.strip()[-300:]}",
+                          {"hist": ops, "family": fam})
+            continue
         if p.returncode != 0:
             ctx.machinery(f"child process failed: {err[-800:]}")
         from bluesky.utils import PersistentDict
